@@ -60,7 +60,7 @@ def quad(
         method = "leggauss"
     fwd_options["method"] = method
 
-    out = fcn(xl, *params)
+    out = fcn(xl if isinstance(xl, torch.Tensor) else torch.as_tensor(xl), *params)
     if isinstance(out, torch.Tensor):
         dtype = out.dtype
         device = out.device
